@@ -100,6 +100,14 @@ func init() { ports["mocks"] = func() port { return &mocksPort{tb: &fakeTB{}} } 
 
 func (p *mocksPort) close() {}
 
+// unhexMsg: `nil` is a nil slice, `-` an empty one: the same message
+func unhexMsg(s string) []byte {
+	if s == "nil" {
+		return nil
+	}
+	return unhex(s)
+}
+
 func parseTransfers(s string) []mqtttest.Transfer {
 	var out []mqtttest.Transfer
 	if s == "-" {
@@ -107,7 +115,7 @@ func parseTransfers(s string) []mqtttest.Transfer {
 	}
 	for _, t := range strings.Split(s, ";") {
 		f := strings.Split(t, ":")
-		out = append(out, mqtttest.Transfer{Message: unhex(f[0]), Topic: string(unhex(f[1])), Err: mkErr(f[2])})
+		out = append(out, mqtttest.Transfer{Message: unhexMsg(f[0]), Topic: string(unhex(f[1])), Err: mkErr(f[2])})
 	}
 	return out
 }
@@ -132,7 +140,7 @@ func (p *mocksPort) exec(f []string) (out []string) {
 		p.pub = mqtttest.NewPublishMock(p.tb, parseTransfers(f[1])...)
 		return nil
 	case "pcall":
-		err := p.pub(quitChan(f[1]), unhex(f[2]), string(unhex(f[3])))
+		err := p.pub(quitChan(f[1]), unhexMsg(f[2]), string(unhex(f[3])))
 		return []string{fmt.Sprintf("pcall %s fails=%d", errTok(err), p.tb.fails)}
 	case "submock":
 		p.tb = &fakeTB{}
